@@ -10,7 +10,7 @@ git -C /repo worktree remove --force $W 2>/dev/null
 git -C /repo worktree add -q --detach $W ${BASE:-HEAD} || exit 3
 trap 'git -C /repo worktree remove --force '$W EXIT
 cd $W
-git apply /tmp/seed/$ID/SEED/patch.diff || { echo "PATCH DOES NOT APPLY"; exit 3; }
+git apply ${SEEDROOT:-/tmp/seed}/$ID/SEED/patch.diff || { echo "PATCH DOES NOT APPLY"; exit 3; }
 go build ./... || { echo "BUILD FAILS"; exit 3; }
 go test -vet=off -count=1 ./... 2>&1 | grep -v "no test files" | grep -v "^ok" ; echo "suite exit: ${PIPESTATUS[0]}"
 cp "$DEMO" "$DST"
